@@ -72,6 +72,33 @@ class Broadcast(Harness):
             cl.append(("rejected with ValueError, frame unchanged", T(status == "ValueError" and o1["names"] == o0["names"] and o1["lens"] == o0["lens"])))
         return cl
 
+class Constructor(Harness):
+    """every calling form of the constructor (dict-style: keywords, a dict, a list of pairs, a dict or an existing frame plus
+    keywords) broadcasts and checks lengths in the same way"""
+    prop = "C01"; opname = "df_history"
+    goals = ["data_frame.py:DataFrame.__init__", "data_frame.py:DataFrame._check_dimensions"]
+    def __init__(self, maxlen):
+        self.maxlen = maxlen
+        self.name = f"C01.constructor.len{maxlen}"
+        self.bounds = {"columns": 2, "lengths": f"0..{maxlen}, scalar", "calling forms": "keywords, dict, list of pairs, dict + keywords, frame + keywords"}
+        self.symbolic = ["contents of string values"]; self.choice_dims = ["calling form", "value form", "lengths"]
+    def build(self, ctx):
+        a = value_spec(ctx, "a", self.maxlen); b = value_spec(ctx, "b", self.maxlen, strings=True)
+        return {"init": [["a", a], ["b", b]], "steps": [], "ctor": choice("ctor", ["dict", "pairs", "dict+kwargs", "frame+kwargs"])}
+    def spec(self, inp, out):
+        if isinstance(out, Raised): return [(f"operation harness failed {out}", T(False))]
+        (_, a), (_, b) = inp["init"]
+        lens = [a[1], b[1]]; mx = max(lens)
+        ok_init = all(l in (1, mx) for l in lens)
+        cl = [("constructor succeeds iff every length is 1 or the maximum", T((out["init"] == "ok") == ok_init))]
+        if out["init"] != "ok":
+            cl.append(("mismatch rejected with ValueError", T(out["init"] == "ValueError")))
+            return cl
+        o0 = out["obs"][0][2]
+        cl += inv_clauses(o0, "after constructor")
+        cl.append(("constructor broadcasts to the maximum length", T(o0["nrow"] == mx and o0["names"] == ["a", "b"])))
+        return cl
+
 def _pool_frame(ctx, maxn):
     n = choice("nrow", range(maxn + 1))
     names = list(choice("names", [("a",), ("a", "b"), ("a", "a b", "items"), ("nrow", "a"), ("filter", "b", "colnames"), ()]))
@@ -188,5 +215,5 @@ class History(Harness):
 
 def harnesses(tier):
     if tier == "quick":
-        return [Broadcast(2), Step(2), History(2)]
-    return [Broadcast(3), Step(3), History(3)]
+        return [Broadcast(2), Step(2), History(2), Constructor(2)]
+    return [Broadcast(3), Step(3), History(3), Constructor(3)]
